@@ -28,6 +28,7 @@ import (
 
 	"github.com/samaritan-proxy/samaritan/utils"
 	multierror "github.com/samaritan-proxy/samaritan/utils/multi-errors"
+	"github.com/samaritan-proxy/samaritan/utils/verifhook"
 )
 
 // Type indicates the type of host.
@@ -399,6 +400,7 @@ func (set *Set) MarkHostHealthy(host *Host) bool {
 	if !host.setHealthy() {
 		return false
 	}
+	verifhook.At("host.Set.mark.afterCAS", host)
 	set.Lock()
 	defer set.Unlock()
 	if _, ok := set.all[host.Addr]; !ok {
@@ -413,6 +415,7 @@ func (set *Set) MarkHostUnhealthy(host *Host) bool {
 	if !host.setUnhealthy() {
 		return false
 	}
+	verifhook.At("host.Set.mark.afterCAS", host)
 	set.Lock()
 	defer set.Unlock()
 	if _, ok := set.all[host.Addr]; !ok {
